@@ -231,5 +231,5 @@ pub fn gen_history(seed: u64, max_ops: usize, allow_abandon: bool, extra: bool) 
     ops.push(Op::OpenRo);
     ops.push(Op::Check);
     ops.push(Op::Close);
-    Scenario { seed, env, ops, fault: Default::default(), fault_ops: vec![] }
+    Scenario { seed, env, ops, fault: Default::default(), fault_ops: vec![], post: None, knobs: Default::default() }
 }
